@@ -5,13 +5,14 @@ From Coq Require Import List Arith Bool.
 From V Require Import model.ProxyRoute proofs.ProxyRoute_proofs gen.Gen_Proxy corr.Run_C09.
 Import ListNotations.
 
-(* the routing decision regenerated from util/proxy.py on this run is the model's *)
+(* the routing decision regenerated from util/proxy.py on this run is the model's; a forwarded request applies the checks
+   configured for the proxy (proxy_assert_hostname / proxy_assert_fingerprint) to its TLS peer, the proxy *)
 Theorem routing_table_is_the_model's :
   match Gen_Proxy.tunnel_table with
   | Some t => forallb (fun r => let '(ps, ds, fw, tun) := r in
                                 Bool.eqb (tunnel_required (mkCfg ps ds fw true true None)) tun) t = true /\ length t = 8
   | None => False
-  end /\ Gen_Proxy.proxy_reached_after_tunnel = Some true.
+  end /\ Gen_Proxy.proxy_reached_after_tunnel = Some true /\ Gen_Proxy.forwarded_uses_proxy_checks = Some true.
 Proof. vm_compute. repeat split. Qed.
 Print Assumptions routing_table_is_the_model's.
 
